@@ -359,6 +359,13 @@ def value_items(path):
                     j = match_close(toks, j) + 1; continue
                 if first is None:
                     first = j
+                if t.kind == "punct" and t.text == "!" and toks[first].text == "macro_rules" and j == first + 1 and j + 2 < hi and toks[j + 2].text in OPEN:
+                    # `macro_rules! NAME { .. }`: a macro DEFINITION (its body is code every expansion site runs)
+                    e = match_close(toks, j + 2)
+                    is_macro = True
+                    j = e + 1
+                    if j < hi and toks[j].text == ";": j += 1
+                    break
                 if t.kind == "punct" and t.text == "!" and j + 1 < hi and toks[j + 1].text in OPEN and all(
                         x.kind == "ident" or x.text == "::" for x in toks[first:j]):
                     e = match_close(toks, j + 1)
@@ -380,6 +387,8 @@ def value_items(path):
                     mname = re.match(r"([\w:]+?)!", "".join(x.text for x in toks[first:first + 8]))
                     inner = re.search(r"\b(?:static|struct|enum|const)\s+(\w+)", text)
                     label = "macro " + (mname.group(1) if mname else head) + "!" + (" " + inner.group(1) if inner else "")
+                    if head == "macro_rules":
+                        label = "macro_rules! " + toks[first + 2].text
                 elif head in ("static", "const") and first + 1 < hi and toks[first + 1].text not in ("fn", "unsafe", "async"):
                     k = first + 1
                     if toks[k].text == "mut": k += 1
